@@ -256,6 +256,11 @@ func subC06(args []string) {
 					})
 					return ok
 				})
+				if !ok {
+					// the hostile frame ended the link before our call could be made
+					v.inflight <- errors.New("link ended before the call was made")
+					return
+				}
 				_, err := r.Ping(context.Background(), 7)
 				v.inflight <- err
 			}()
